@@ -244,6 +244,22 @@ def run_group(pid, specdir, g, scratch, tier, stack, want_trace=None):
         cmd = gi + [cur, gb1]
         res['cmds'].append(' '.join(cmd))
         rc, out, err, _ = run(cmd, g.get('timeout', 300))
+        for _retry in range(8):
+            # a change that removes the last call of a callee makes DFCC refuse its replacement ("Function to replace 'f' not found"):
+            # drop that replacement and instrument again
+            mnf = re.search(r"Function to replace '([^']+)' not found", out + err)
+            if rc == 0 or not mnf:
+                break
+            name_nf = mnf.group(1)
+            k = 0
+            while k + 1 < len(gi):
+                if gi[k] == '--replace-call-with-contract' and gi[k + 1] == name_nf:
+                    del gi[k:k + 2]
+                else:
+                    k += 1
+            cmd = gi + [cur, gb1]
+            res['cmds'].append(' '.join(cmd))
+            rc, out, err, _ = run(cmd, g.get('timeout', 300))
         if rc != 0 or not os.path.exists(gb1):
             res['error'] = 'goto-instrument failed: ' + (out + err)[-1500:]
             return res
@@ -260,8 +276,10 @@ def run_group(pid, specdir, g, scratch, tier, stack, want_trace=None):
     cb = ['cbmc'] + (g.get('checks') if g.get('checks') is not None else CBMC_CHECKS) + ['--json-ui']
     if loops:
         if not g.get('unwind'):
-            res['error'] = 'uncontracted loop(s) %s in group %s' % (loops, name)
-            return res
+            # a loop the specification does not know (the code under test gained one): unwind it a few times, with unwinding assertions.
+            # Failures found within the bound are real; if the bound does not suffice the group is undecided ("bound too small").
+            g = dict(g); g['unwind'] = int(os.environ.get('VERIF_FALLBACK_UNWIND', '4'))
+            res['fallback_unwind'] = 'unexpected loop(s) %s: unwound %d times' % (loops, g['unwind'])
         cb += ['--unwind', str(g['unwind'] if tier == 'quick' or not g.get('unwind_thorough') else g['unwind_thorough']),
                '--unwinding-assertions']
         if not g.get('exact_unwind'):
@@ -535,7 +553,9 @@ def run_property(pid, tier, flags, only, scratch, t0, seed, evidence_path):
             continue
         if o['cls'] == 'unwinding':
             if o['status'] == 'FAILURE' and o['bounded']:
-                undecided.append('bound too small: %s' % o['name']); und_groups.add(o['group'])
+                undecided.append('bound too small: %s' % o['name'])
+                # an unexpected loop unwound by the fallback: obligations that fail within the bound still stand
+                (und_soft if any(r.get('fallback_unwind') and r['name'] == o['group'] for r in results) else und_groups).add(o['group'])
             continue
         if o['status'] != 'SUCCESS':
             failed.append(o)
